@@ -1,7 +1,7 @@
 (** C02: the contiguous fast path of ApplySlice / CopyFrom (copy(dst.Unroll(), src.Unroll()))
     gives the same storage contents as the element-by-element index loop, for every pair of
     well-formed views whose storage cells do not overlap. *)
-From Coq Require Import ZArith List Bool Lia.
+From Coq Require Import ZArith List Bool Lia FinFun.
 From OW Require Import Arrays.IntOps Arrays.View Arrays.Ops Arrays.IndexProofs Arrays.AffineProofs
   Arrays.ContigProofs Arrays.HelperProofs Arrays.MemProofs Arrays.HistoryProofs.
 Import ListNotations.
@@ -10,9 +10,7 @@ Local Open Scope Z_scope.
 (** row-major enumeration by rank *)
 Lemma unravel_zero ds : Forall (fun d => 0 < d) ds -> unravel ds 0 = map (fun _ => 0) ds.
 Proof.
-  induction 1 as [|d ds Hd F IH]; [reflexivity|]. cbn [unravel map]. rewrite IH. f_equal.
-  rewrite Z.div_0_l; [apply Z.mod_0_l; lia|].
-  assert (0 < product ds) by (clear -F; induction F; [reflexivity|]; rewrite product_cons; nia). lia.
+  induction 1 as [|d ds Hd F IH]; [reflexivity|]. cbn [unravel map]. rewrite IH. reflexivity.
 Qed.
 
 Lemma new_index_zeros c : new_index c 0 = map (fun _ => 0) (dims c).
@@ -30,6 +28,9 @@ Proof.
   rewrite E. f_equal. rewrite ravel_unravel in R by (auto; lia).
   rewrite Z.mod_small in R by lia. rewrite <- R. symmetry. apply unravel_ravel0. exact V'.
 Qed.
+
+Definition cell_eq_dec : forall x y : nat * Z, {x = y} + {x <> y}.
+Proof. decide equality; [apply Z.eq_dec | apply Nat.eq_dec]. Defined.
 
 Section C.
   Context {V : Type}.
@@ -64,9 +65,310 @@ Section C.
   Proof.
     intros ND F A W1 W2 b a Hb.
     destruct (writes_spec ws h1 h1' ND W1) as [S1 O1]. destruct (writes_spec ws h2 h2' ND W2) as [S2 O2].
-    destruct (in_dec (fun x y => ltac:(decide equality; [apply Z.eq_dec|apply Nat.eq_dec])) (b, a) (map fst ws)) as [I|N].
+    destruct (in_dec cell_eq_dec (b, a) (map fst ws)) as [I|N].
     - apply in_map_iff in I as ([c v] & E & I). cbn in E. subst c.
-      rewrite (S1 _ _ I), (S2 _ _ I). reflexivity.
+      pose proof (S1 _ _ I) as R1. pose proof (S2 _ _ I) as R2. cbn [fst snd] in R1, R2. rewrite R1, R2. reflexivity.
     - rewrite O1, O2 by exact N. apply A, Hb.
   Qed.
 End C.
+
+Section D.
+  Context {V : Type}.
+  Notation heap := (@heap V).
+
+  (** storage cell of element [i] of a well-formed array *)
+  Definition acell (a : arr) (rd : list Z) (v : aview) (i : list Z) : nat * Z :=
+    cell_of (im a) (ravel rd (root_idx v i)).
+
+  Lemma set_as_hwrite (h : heap) a rd v i x : wf_arr h a rd v -> valid_idx (adims v) i ->
+    set h a i x = hwrite h (fst (acell a rd v i)) (snd (acell a rd v i)) x.
+  Proof.
+    intros (E & B & S) Vi. destruct (conc_index rd v i B Vi) as [I R]. unfold set, acell. rewrite E, I.
+    destruct (im a) as [g|b]; cbn [impl_write cell_of fst snd]; [|reflexivity].
+    destruct S as (l & _ & Lg & _). unfold gwrite.
+    destruct (Z.leb_spec 0 (ravel rd (root_idx v i))); [|lia].
+    destruct (Z.ltb_spec (ravel rd (root_idx v i)) (glen g)); [|lia]. reflexivity.
+  Qed.
+
+  Lemma get_as_hread (h : heap) a rd v i : wf_arr h a rd v -> valid_idx (adims v) i ->
+    get h a i = hread h (fst (acell a rd v i)) (snd (acell a rd v i)).
+  Proof.
+    intros (E & B & S) Vi. destruct (conc_index rd v i B Vi) as [I R]. unfold get, acell. rewrite E, I.
+    destruct (im a) as [g|b]; cbn [impl_read cell_of fst snd]; [|reflexivity].
+    destruct S as (l & _ & Lg & _). unfold gread.
+    destruct (Z.leb_spec 0 (ravel rd (root_idx v i))); [|lia].
+    destruct (Z.ltb_spec (ravel rd (root_idx v i)) (glen g)); [|lia]. reflexivity.
+  Qed.
+
+  Lemma acell_buf_lt (h : heap) a rd v i : wf_arr h a rd v -> (fst (acell a rd v i) < length h)%nat.
+  Proof.
+    intros (_ & _ & S). unfold acell. destruct (im a) as [g|b]; cbn in *;
+      destruct S as (l & E & _); apply nth_error_Some; congruence.
+  Qed.
+
+  Lemma acell_inj a rd v i j : in_box rd v -> valid_idx (adims v) i -> valid_idx (adims v) j ->
+    acell a rd v i = acell a rd v j -> root_idx v i = root_idx v j.
+  Proof.
+    intros B Vi Vj E. apply (ravel_inj rd); try (apply root_idx_valid; assumption).
+    unfold acell in E. destruct (im a); cbn in E; inversion E; lia.
+  Qed.
+
+  (** the k-th .. (k+n-1)-th writes of the copy, in row-major order, with the values the
+      source had in heap [h0] *)
+  Fixpoint copy_ws (h0 : heap) (dst src : arr) rd1 v1 rd2 v2 (shp : list Z) (k : Z) (n : nat)
+    : option (list ((nat * Z) * V)) :=
+    match n with
+    | O => Some []
+    | S m => match hread h0 (fst (acell src rd2 v2 (unravel shp k))) (snd (acell src rd2 v2 (unravel shp k))),
+                   copy_ws h0 dst src rd1 v1 rd2 v2 shp (k + 1) m with
+             | Some x, Some r => Some ((acell dst rd1 v1 (unravel shp k), x) :: r)
+             | _, _ => None
+             end
+    end.
+
+  Lemma copy_ws_cells h0 dst src rd1 v1 rd2 v2 shp : forall n k ws,
+    copy_ws h0 dst src rd1 v1 rd2 v2 shp k n = Some ws ->
+    map fst ws = map (fun t => acell dst rd1 v1 (unravel shp (k + Z.of_nat t))) (seq 0 n).
+  Proof.
+    induction n as [|n IH]; intros k ws H; cbn in H; [inversion H; reflexivity|].
+    destruct (hread _ _ _); [|discriminate]. destruct (copy_ws _ _ _ _ _ _ _ _ (k + 1) n) eqn:E; [|discriminate].
+    inversion H; subst. cbn [map seq]. rewrite Z.add_0_r. f_equal.
+    rewrite (IH _ _ E), <- seq_shift, map_map. apply map_ext. intros t. f_equal. f_equal. lia.
+  Qed.
+
+  (** ** the index loop is the list of writes [copy_ws], provided the views do not overlap *)
+  Lemma idx_copy_loop_writes (h0 : heap) dst src rd1 v1 rd2 v2 shp :
+    adims v1 = shp -> adims v2 = shp -> Forall (fun d => 0 < d) shp ->
+    in_box rd1 v1 -> in_box rd2 v2 -> cm dst = conc rd1 v1 -> cm src = conc rd2 v2 ->
+    (forall i j, valid_idx shp i -> valid_idx shp j -> acell dst rd1 v1 i <> acell src rd2 v2 j) ->
+    forall n k (h : heap),
+      0 <= k -> k + Z.of_nat n <= product shp ->
+      storage_ok h (im dst) rd1 -> storage_ok h (im src) rd2 ->
+      (forall j, valid_idx shp j ->
+         hread h (fst (acell src rd2 v2 j)) (snd (acell src rd2 v2 j)) =
+         hread h0 (fst (acell src rd2 v2 j)) (snd (acell src rd2 v2 j))) ->
+      exists ws, copy_ws h0 dst src rd1 v1 rd2 v2 shp k n = Some ws /\
+        idx_copy_loop h dst src shp (unravel shp k) n = writes h ws.
+  Proof.
+    intros D1 D2 P B1 B2 C1 C2 Disj. induction n as [|n IH]; intros k h Hk Hn S1 S2 Agree.
+    - exists []. split; reflexivity.
+    - assert (Vk : valid_idx shp (unravel shp k)) by (apply unravel_valid; exact P).
+      assert (W1 : wf_arr h dst rd1 v1) by (repeat split; assumption).
+      assert (W2 : wf_arr h src rd2 v2) by (repeat split; assumption).
+      cbn [idx_copy_loop copy_ws].
+      rewrite (get_as_hread h src rd2 v2) by (auto; rewrite D2; exact Vk).
+      rewrite (Agree _ Vk).
+      destruct (get_set_total h src rd2 v2 (unravel shp k) W2 ltac:(rewrite D2; exact Vk)) as [[x Hx] _].
+      rewrite (get_as_hread h src rd2 v2) in Hx by (auto; rewrite D2; exact Vk). rewrite (Agree _ Vk) in Hx. rewrite Hx.
+      rewrite (set_as_hwrite h dst rd1 v1) by (auto; rewrite D1; exact Vk).
+      destruct (get_set_total h dst rd1 v1 (unravel shp k) W1 ltac:(rewrite D1; exact Vk)) as [_ St].
+      destruct (St x) as [h1 Hw]. rewrite (set_as_hwrite h dst rd1 v1) in Hw by (auto; rewrite D1; exact Vk).
+      rewrite Hw.
+      (* increment *)
+      destruct (increment_succ shp _ Vk) as (i' & Ei & Vi' & Ri). rewrite Ei.
+      destruct n as [|n'].
+      + exists [(acell dst rd1 v1 (unravel shp k), x)]. cbn [copy_ws idx_copy_loop writes].
+        split; [reflexivity|]. destruct (acell dst rd1 v1 (unravel shp k)) as [b a]. cbn [fst snd] in *. rewrite Hw. reflexivity.
+      + assert (Ei' : i' = unravel shp (k + 1)).
+        { rewrite ravel_unravel in Ri by (auto; lia). rewrite Z.mod_small in Ri by lia.
+          rewrite <- Ri. symmetry. apply unravel_ravel0. exact Vi'. }
+        subst i'.
+        destruct (IH (k + 1) h1) as (ws & Ews & Eloop); try lia.
+        * eapply storage_ok_hwrite; eauto.
+        * eapply storage_ok_hwrite; eauto.
+        * intros j Vj. rewrite <- (Agree j Vj). eapply hread_hwrite_other; [exact Hw|].
+          intros C. apply (Disj (unravel shp k) j Vk Vj). symmetry.
+          destruct (acell src rd2 v2 j), (acell dst rd1 v1 (unravel shp k)); cbn in *. inversion C; subst; reflexivity.
+        * rewrite Ews. eexists; split; [reflexivity|]. rewrite Eloop.
+          destruct (acell dst rd1 v1 (unravel shp k)) as [b a]. cbn [fst snd writes] in *. rewrite Hw. reflexivity.
+  Qed.
+End D.
+
+Section E.
+  Context {V : Type}.
+  Notation heap := (@heap V).
+
+  Lemma gread_all_spec (h : heap) g : forall n i l, gread_all h g i n = Some l ->
+    length l = n /\ forall t, (t < n)%nat -> nth_error l t = gread h g (i + Z.of_nat t).
+  Proof.
+    induction n as [|n IH]; intros i l H; cbn in H.
+    - inversion H; subst. split; [reflexivity|intros; lia].
+    - destruct (gread h g i) as [x|] eqn:G; [|discriminate].
+      destruct (gread_all h g (i + 1) n) as [r|] eqn:R; cbn in H; [|discriminate]. inversion H; subst.
+      destruct (IH _ _ R) as [L N]. split; [cbn; lia|]. intros [|t] Ht; cbn [nth_error].
+      + rewrite Z.add_0_r. symmetry; exact G.
+      + rewrite N by lia. f_equal. lia.
+  Qed.
+
+  Lemma gread_all_some (h : heap) g : forall n i, (forall t, (t < n)%nat -> exists x, gread h g (i + Z.of_nat t) = Some x) ->
+    exists l, gread_all h g i n = Some l.
+  Proof.
+    induction n as [|n IH]; intros i H; cbn; [eauto|].
+    destruct (H 0%nat ltac:(lia)) as [x Hx]. rewrite Z.add_0_r in Hx. rewrite Hx.
+    destruct (IH (i + 1)) as [l Hl].
+    { intros t Ht. destruct (H (S t) ltac:(lia)) as [y Hy]. exists y. rewrite <- Hy. f_equal. lia. }
+    rewrite Hl. cbn. eauto.
+  Qed.
+
+  (** copy(dst, vals) onto a Go slice whose slots are the destination cells = the same writes *)
+  Lemma copy_to_is_copy_ws (h0 : heap) dst src rd1 v1 rd2 v2 shp gd :
+    forall (svals : list V) k (h' : heap),
+      0 <= k -> k + Z.of_nat (length svals) <= glen gd ->
+      (forall t, (t < length svals)%nat ->
+         acell dst rd1 v1 (unravel shp (k + Z.of_nat t)) = (gbuf gd, gbase gd + (k + Z.of_nat t)) /\
+         nth_error svals t = hread h0 (fst (acell src rd2 v2 (unravel shp (k + Z.of_nat t))))
+                                      (snd (acell src rd2 v2 (unravel shp (k + Z.of_nat t))))) ->
+      exists ws, copy_ws h0 dst src rd1 v1 rd2 v2 shp k (length svals) = Some ws /\
+                 copy_to h' gd k svals = writes h' ws.
+  Proof.
+    induction svals as [|x r IH]; intros k h' Hk Hl H.
+    - exists []. split; reflexivity.
+    - cbn [length] in *. destruct (H 0%nat ltac:(lia)) as [C0 V0]. rewrite Z.add_0_r in C0, V0. cbn [nth_error] in V0.
+      cbn [copy_ws copy_to]. rewrite <- V0.
+      destruct (Z.ltb_spec k (glen gd)); [|lia].
+      assert (Hr : forall t, (t < length r)%nat ->
+         acell dst rd1 v1 (unravel shp (k + 1 + Z.of_nat t)) = (gbuf gd, gbase gd + (k + 1 + Z.of_nat t)) /\
+         nth_error r t = hread h0 (fst (acell src rd2 v2 (unravel shp (k + 1 + Z.of_nat t))))
+                                  (snd (acell src rd2 v2 (unravel shp (k + 1 + Z.of_nat t))))).
+      { intros t Ht. destruct (H (S t) ltac:(lia)) as [Ct Vt]. cbn [nth_error] in Vt.
+        replace (k + 1 + Z.of_nat t) with (k + Z.of_nat (S t)) by lia. split; assumption. }
+      destruct (IH (k + 1) h' ltac:(lia) ltac:(lia) Hr) as (ws & Ews & Ecp).
+      rewrite Ews. eexists; split; [reflexivity|]. rewrite C0. cbn [writes].
+      unfold gwrite. destruct (Z.leb_spec 0 k); [|lia]. destruct (Z.ltb_spec k (glen gd)); [|lia]. cbn [andb].
+      destruct (hwrite h' (gbuf gd) (gbase gd + k) x) as [h1|]; [|reflexivity].
+      clear Ecp. destruct (IH (k + 1) h1 ltac:(lia) ltac:(lia) Hr) as (ws2 & Ews2 & Ecp2).
+      rewrite Ews in Ews2. inversion Ews2; subst. exact Ecp2.
+  Qed.
+End E.
+
+Section F.
+  Context {V : Type}.
+  Notation heap := (@heap V).
+
+  Definition cell_ok (h : heap) (c : nat * Z) : Prop :=
+    exists l, nth_error h (fst c) = Some l /\ 0 <= snd c < Z.of_nat (length l).
+
+  Lemma hwrite_total (h : heap) b a x : cell_ok h (b, a) -> exists h', hwrite h b a x = Some h'.
+  Proof.
+    intros (l & E & R). cbn in *. unfold hwrite. rewrite E.
+    destruct (zset_some l a x R) as [l' ->]. apply set_nth_some. apply nth_error_Some. congruence.
+  Qed.
+
+  Lemma cell_ok_hext (h h' : heap) c : hext h h' -> cell_ok h c -> cell_ok h' c.
+  Proof. intros [_ A] (l & E & R). destruct (A _ _ E) as (l' & E' & Le). exists l'. split; [exact E'|lia]. Qed.
+
+  Lemma writes_total : forall ws (h : heap), Forall (fun w => cell_ok h (fst w)) ws -> exists h', writes h ws = Some h'.
+  Proof.
+    induction ws as [|[[b a] x] r IH]; intros h F; [cbn; eauto|]. inversion F as [|? ? C F']; subst. cbn [writes fst] in *.
+    destruct (hwrite_total h b a x C) as [h1 W]. rewrite W. apply IH.
+    eapply Forall_impl; [|exact F']. intros w Cw. eapply cell_ok_hext; [eapply hext_hwrite; eauto|exact Cw].
+  Qed.
+
+  Lemma acell_ok (h : heap) a rd v i : wf_arr h a rd v -> valid_idx (adims v) i -> cell_ok h (acell a rd v i).
+  Proof.
+    intros (E & B & S) Vi. destruct (conc_index rd v i B Vi) as [_ R]. unfold acell, cell_ok.
+    destruct (im a) as [g|b]; cbn in *.
+    - destruct S as (l & El & Lg & Cg & B0 & B1). exists l. split; [exact El|lia].
+    - destruct S as (l & El & Ll). exists l. split; [exact El|lia].
+  Qed.
+
+  (** Unroll of any well-formed view yields its elements in row-major order (aliasing or not) *)
+  Lemma unroll_values (h : heap) src rd2 v2 :
+    wf_arr h src rd2 v2 -> steps_pos v2 -> adims v2 <> [] ->
+    exists h2 gs, unroll h src = Some (h2, gs) /\ hext h h2 /\ agree (length h) h h2 /\
+      glen gs = product (adims v2) /\
+      forall k, 0 <= k < product (adims v2) -> gread h2 gs k = get h src (unravel (adims v2) k).
+  Proof.
+    intros W SP N. pose proof W as (E & B & S).
+    destruct (contiguous_iff_adjacent rd2 v2 B SP) as (b & Cb & _).
+    assert (Gather : exists h2 gs, unroll_gather h src = Some (h2, gs) /\ hext h h2 /\ agree (length h) h h2 /\
+              glen gs = product (adims v2) /\
+              forall k, 0 <= k < product (adims v2) -> gread h2 gs k = get h src (unravel (adims v2) k)).
+    { destruct (unroll_gather_spec h src rd2 v2 W N) as (vals & U & L & Nth).
+      eexists; eexists; split; [exact U|]. split; [apply hext_app|]. split.
+      - intros b0 a0 Hb. unfold hread. rewrite nth_error_app1 by exact Hb. reflexivity.
+      - split; [reflexivity|]. intros k Hk. unfold gread; cbn [glen gbuf gbase].
+        destruct (Z.leb_spec 0 k); [|lia]. destruct (Z.ltb_spec k (product (adims v2))); [|lia]. cbn [andb].
+        unfold hread. rewrite nth_error_app2 by lia. rewrite Nat.sub_diag. cbn [nth_error].
+        unfold znth, zidx. destruct (Z.ltb_spec (0 + k) 0); [lia|]. rewrite Z.add_0_l. apply Nth. exact Hk. }
+    unfold unroll. destruct src as [c m]. cbn [cm im] in *. subst c. destruct m as [g|bb]; [|exact Gather].
+    rewrite Cb. destruct b; [|exact Gather].
+    destruct (unroll_contiguous_alias h g (conc rd2 v2) rd2 v2 W SP Cb) as (g' & U & _ & _ & Lg & Rd).
+    unfold unroll in U. cbn [cm im] in U. rewrite Cb in U.
+    exists h, g'. split; [exact U|]. split; [apply hext_refl|]. split; [intros ? ? ?; reflexivity|]. split; assumption.
+  Qed.
+
+  (** ** C02: ApplySlice / CopyFrom — the contiguous fast path and the index loop leave the
+      same contents in every existing buffer, for non-overlapping well-formed views *)
+  Theorem apply_slice_fast_eq_slow (h : heap) (a sl src : arr) loc st g rd1 v1 rd2 v2 :
+    slice a loc (shape src) st = Some sl -> im a = GoImpl g ->
+    wf_arr h sl rd1 v1 -> steps_pos v1 -> wf_arr h src rd2 v2 -> steps_pos v2 ->
+    adims v1 = adims v2 -> adims v1 <> [] ->
+    contiguous (cm sl) = Some true ->
+    (forall i j, valid_idx (adims v1) i -> valid_idx (adims v1) j -> acell sl rd1 v1 i <> acell src rd2 v2 j) ->
+    exists hf hs,
+      apply_slice h a loc st src = Some hf /\
+      idx_copy_loop h sl src (shape src) (new_index (cm sl) 0) (Z.to_nat (product (shape src))) = Some hs /\
+      agree (length h) hf hs.
+  Proof.
+    intros Sl Ia W1 SP1 W2 SP2 D N C Disj.
+    pose proof W1 as (E1 & B1 & S1). pose proof W2 as (E2 & B2 & S2).
+    assert (Isl : im sl = GoImpl g).
+    { unfold slice in Sl. destruct (slice_into _ _ _ _); [|discriminate]. inversion Sl; subst. exact Ia. }
+    set (shp := adims v1) in *.
+    assert (Shs : shape src = shp) by (unfold shape; rewrite E2; cbn; symmetry; exact D).
+    pose proof (in_box_dims_pos _ _ B1) as P. fold shp in P.
+    assert (PP : 0 < product shp) by (apply product_pos_all; exact P).
+    (* destination: aliasing slice of the storage *)
+    destruct sl as [c1 m1]. cbn [cm im] in *. subst m1.
+    destruct (unroll_contiguous_alias h g c1 rd1 v1 W1 SP1 C) as (gd & U1 & Gb & Gs & Gl & _).
+    (* adjacency of the destination cells *)
+    subst c1. destruct (contiguous_iff_adjacent rd1 v1 B1 SP1) as (b & Cb & Iff). rewrite C in Cb. inversion Cb; subst b.
+    pose proof (proj1 Iff eq_refl) as Adj. clear Iff Cb.
+    assert (Cell : forall t, 0 <= t < product shp ->
+               acell (mkArr (conc rd1 v1) (GoImpl g)) rd1 v1 (unravel shp t) = (gbuf gd, gbase gd + t)).
+    { intros t Ht. assert (Vt : valid_idx shp (unravel shp t)) by (apply unravel_valid; exact P).
+      destruct (conc_index rd1 v1 _ B1 Vt) as [I _]. rewrite (Adj _ Vt), ravel_unravel in I by (auto; lia).
+      unfold acell; cbn [im cell_of]. assert (Er : ravel rd1 (root_idx v1 (unravel shp t)) = start (conc rd1 v1) + t) by congruence.
+      rewrite Er, Gb, Gs. f_equal. lia. }
+    (* source values *)
+    destruct (unroll_values h src rd2 v2 W2 SP2 ltac:(rewrite <- D; exact N)) as (h2 & gs & U2 & X2 & A2 & Lgs & Rd2).
+    rewrite <- D in Lgs, Rd2. fold shp in Lgs, Rd2.
+    destruct (gread_all_some h2 gs (Z.to_nat (glen gs)) 0) as [svals Gv].
+    { intros t Ht. rewrite Lgs in Ht. rewrite Z.add_0_l, Rd2 by lia.
+      destruct (get_set_total h src rd2 v2 (unravel shp (Z.of_nat t)) W2) as [[x Hx] _];
+        [rewrite <- D; apply unravel_valid; exact P|eauto]. }
+    destruct (gread_all_spec h2 gs _ _ _ Gv) as [Lsv Nsv]. rewrite Lgs in Lsv, Nsv.
+    (* both paths as the same list of writes *)
+    destruct (copy_to_is_copy_ws h (mkArr (conc rd1 v1) (GoImpl g)) src rd1 v1 rd2 v2 shp gd svals 0 h2) as (ws & Ews & Ecp);
+      [lia|rewrite Lsv, Gl; fold shp; lia| |].
+    { intros t Ht. rewrite Lsv in Ht. rewrite Z.add_0_l. split; [apply Cell; lia|].
+      rewrite Nsv by exact Ht. rewrite Z.add_0_l, Rd2 by lia.
+      apply get_as_hread; [exact W2|rewrite <- D; apply unravel_valid; exact P]. }
+    destruct (idx_copy_loop_writes h (mkArr (conc rd1 v1) (GoImpl g)) src rd1 v1 rd2 v2 shp eq_refl (eq_sym D) P B1 B2 eq_refl E2 Disj
+                (Z.to_nat (product shp)) 0 h ltac:(lia) ltac:(lia) S1 S2 ltac:(intros; reflexivity)) as (ws' & Ews' & Eloop).
+    rewrite Lsv in Ews. rewrite Ews in Ews'. inversion Ews'; subst ws'. clear Ews'.
+    (* the writes succeed on both heaps *)
+    assert (Cells : map fst ws = map (fun t => (gbuf gd, gbase gd + Z.of_nat t)) (seq 0 (Z.to_nat (product shp)))).
+    { rewrite (copy_ws_cells _ _ _ _ _ _ _ _ _ _ _ Ews). apply map_ext_in. intros t It. apply in_seq in It.
+      rewrite Z.add_0_l. apply Cell. lia. }
+    assert (OK : Forall (fun w => cell_ok h (fst w)) ws).
+    { apply Forall_forall. intros w Iw. assert (Ic : In (fst w) (map fst ws)) by (apply in_map; exact Iw).
+      rewrite (copy_ws_cells _ _ _ _ _ _ _ _ _ _ _ Ews) in Ic. apply in_map_iff in Ic as (t & Et & It). rewrite <- Et.
+      apply acell_ok; [exact W1|apply unravel_valid; exact P]. }
+    destruct (writes_total ws h OK) as [hs Hs].
+    destruct (writes_total ws h2) as [hf Hf].
+    { eapply Forall_impl; [|exact OK]. intros w Cw. eapply cell_ok_hext; eauto. }
+    exists hf, hs. split; [|split].
+    - unfold apply_slice. rewrite Sl, Ia. cbn [cm]. rewrite C, U1, U2. unfold gvalues. rewrite Gv, Ecp. exact Hf.
+    - rewrite Shs. rewrite new_index_zeros. cbn [cm dims conc]. change (adims v1) with shp.
+      rewrite <- unravel_zero by exact P. rewrite Eloop. exact Hs.
+    - apply (writes_agree ws h2 h hf hs (length h)); auto.
+      + rewrite Cells. apply Injective_map_NoDup; [|apply seq_NoDup].
+        intros x y Exy. inversion Exy. lia.
+      + apply Forall_forall. intros w Iw. assert (Ic : In (fst w) (map fst ws)) by (apply in_map; exact Iw).
+        rewrite Cells in Ic. apply in_map_iff in Ic as (t & Et & _). rewrite <- Et. cbn [fst]. rewrite Gb.
+        destruct S1 as (l & El & _). cbn in El. apply nth_error_Some. congruence.
+      + intros b0 a0 Hb. symmetry. apply A2, Hb.
+  Qed.
+End F.
